@@ -79,6 +79,10 @@ defaults {
     dns_rebind_protection off
   }
 }
+queue_retention {
+  max_age 1h
+  prune_interval 1s
+}
 /in/pull {
   pull { path /pull/p }
 }
@@ -255,6 +259,41 @@ func (r *Run) doOp(op WorkOp) {
 			}
 		}
 		r.emit(map[string]any{"ev": "Deq", "keys": keys, "status": status})
+	case "ack_batch", "nack_batch", "dead_batch":
+		// settle everything that is held through the batch form (lease_ids)
+		if len(r.held) == 0 {
+			return
+		}
+		held := r.held
+		r.held = nil
+		ids := make([]string, 0, len(held))
+		for _, h := range held {
+			ids = append(ids, h.lease)
+		}
+		kind := strings.TrimSuffix(op.Op, "_batch")
+		body := map[string]any{"lease_ids": ids}
+		path := "/pull/p/ack"
+		switch kind {
+		case "nack":
+			path = "/pull/p/nack"
+			body["delay"] = "0s"
+		case "dead":
+			path = "/pull/p/nack"
+			body["dead"] = true
+			body["reason"] = "verif"
+		}
+		b, _ := json.Marshal(body)
+		status, _ := r.post(r.ports.pull, path, b, map[string]string{"Authorization": "Bearer tok"})
+		// 200 = every lease settled; 409 = some conflict (treated like an unanswered request: either outcome per lease)
+		st := status
+		if status == 200 {
+			st = 204
+		} else if status == 409 {
+			st = -1
+		}
+		for _, h := range held {
+			r.emit(map[string]any{"ev": "Settle", "kind": kind, "key": h.key, "status": st, "batch": true})
+		}
 	case "ack", "nack", "dead":
 		if len(r.held) == 0 {
 			return
